@@ -208,6 +208,17 @@ def classify_denominator(pm, u, f, den, te):
         return ">=1 by construction"
     if "self.temperature" in chains or "self.n_features_in_" in chains or "self.n_hidden_dim" in chains:
         return "validated-positive"
+    # a hyper-parameter whose constraint table only admits positive numbers
+    if isinstance(den, ast.Attribute) and isinstance(den.value, ast.Name) and den.value.id == "self" and f is not None:
+        cls = next((p_ for p_ in parents(f) if isinstance(p_, ast.ClassDef)), None)
+        ci = pm.classes.get(cls.name) if cls is not None else None
+        if ci is not None:
+            try:
+                doms = te.class_constraints(ci).get(den.attr)
+            except Exception:
+                doms = None
+            if doms and all(d.kind == "interval" and d.lo is not None and (d.lo > 0 or (d.lo == 0 and d.closed in ("right", "neither"))) for d in doms):
+                return "validated-positive (constraint table)"
     # pyx integer sizes
     if u.is_pyx:
         sizes = {"delta_size", "n_leaf", "split_size", "left_size", "right_size", "delta_size_k", "delta_size_k_prime", "cluster_sizes"}
